@@ -11,7 +11,6 @@ Variable C : Crypto.
 Variable suite_table : list (Z * String.string).
 Variable suite_parts : parts.
 Variable keylog : list secret.
-Variable exp_meta : bool.
 Variable sip : bytes.
 Variable sport : Z.
 
@@ -30,35 +29,49 @@ Fixpoint gtr_trace (sb cb : list packet) (ps : list packet) : result (list packe
         Ok (fst (fst x), snd (fst x), map (pair false) (snd r) ++ snd x)
   end.
 
-Fixpoint handle_trace (c : tcore) (tr : list (bool * tls_record)) : result tcore :=
+Fixpoint handle_trace (c : tcore) (tr : list (bool * tls_record)) : result (tcore * list traffic_entry) :=
   match tr with
-  | [] => Ok c
-  | (d, r) :: t => do c' <- handle_tls_record C suite_table suite_parts keylog exp_meta c r d; handle_trace c' t
+  | [] => Ok (c, [])
+  | (d, r) :: t => do x <- handle_tls_record C suite_table suite_parts keylog c r d; do y <- handle_trace (fst x) t; Ok (fst y, snd x ++ snd y)
   end.
 
-Lemma handle_trace_app a : forall b c, handle_trace c (a ++ b) = (do c1 <- handle_trace c a; handle_trace c1 b).
-Proof. induction a as [|[d r] a IH]; intros b c; cbn [app handle_trace bind]; [reflexivity|]. destruct (handle_tls_record _ _ _ _ _ _ _ _); cbn [bind]; [apply IH|reflexivity]. Qed.
-Lemma handle_records_trace rs : forall c d, handle_records C suite_table suite_parts keylog exp_meta c rs d = handle_trace c (map (pair d) rs).
-Proof. induction rs as [|r rs IH]; intros c d; cbn [handle_records map handle_trace]; [reflexivity|]. destruct (handle_tls_record _ _ _ _ _ _ _ _); cbn [bind]; [apply IH|reflexivity]. Qed.
+Lemma handle_trace_app a : forall b c, handle_trace c (a ++ b) =
+  (do x <- handle_trace c a; do y <- handle_trace (fst x) b; Ok (fst y, snd x ++ snd y)).
+Proof.
+  induction a as [|[d r] a IH]; intros b c; cbn [app handle_trace bind].
+  - cbn [fst snd app]. destruct (handle_trace c b) as [[c' e]|]; reflexivity.
+  - destruct (handle_tls_record _ _ _ _ _ _ _) as [x|]; cbn [bind]; [|reflexivity]. rewrite IH.
+    destruct (handle_trace (fst x) a) as [y|]; cbn [bind]; [|reflexivity].
+    cbn [fst snd]. destruct (handle_trace (fst y) b) as [z|]; cbn [bind fst snd]; [|reflexivity]. rewrite app_assoc. reflexivity.
+Qed.
+Lemma handle_records_trace rs : forall c d, handle_records C suite_table suite_parts keylog c rs d = handle_trace c (map (pair d) rs).
+Proof.
+  induction rs as [|r rs IH]; intros c d; cbn [handle_records map handle_trace]; [reflexivity|].
+  destruct (handle_tls_record _ _ _ _ _ _ _) as [x|]; cbn [bind]; [|reflexivity]. rewrite IH. reflexivity.
+Qed.
 
-(* get_tls_records hands the handler exactly the trace, in order *)
-Theorem gtr_is_trace ps : forall st st', get_tls_records C suite_table suite_parts keylog exp_meta sip sport st ps = Ok st' ->
-  exists tr, gtr_trace (rs_server_pbuf st) (rs_client_pbuf st) ps = Ok (rs_server_pbuf st', rs_client_pbuf st', tr) /\
-             handle_trace (rs_core st) tr = Ok (rs_core st').
+(* get_tls_records hands the handler exactly the trace, in order, and collects what the handler emits *)
+Theorem gtr_is_trace ps : forall st st', get_tls_records C suite_table suite_parts keylog sip sport st ps = Ok st' ->
+  exists tr em, gtr_trace (rs_server_pbuf st) (rs_client_pbuf st) ps = Ok (rs_server_pbuf st', rs_client_pbuf st', tr) /\
+             handle_trace (rs_core st) tr = Ok (rs_core st', em) /\ rs_traffic st' = rs_traffic st ++ em.
 Proof.
   induction ps as [|p ps IH]; intros st st' H; cbn [get_tls_records gtr_trace] in *.
-  - injection H as <-. exists []. split; reflexivity.
-  - destruct (feed_packet _ _ _ _ _ _ _ st p) as [st1|] eqn:E; [|discriminate]. cbn [bind] in H.
-    destruct (IH _ _ H) as (tr & Ht & Hh). unfold feed_packet in E.
+  - injection H as <-. exists [], []. rewrite app_nil_r. repeat split; reflexivity.
+  - destruct (feed_packet _ _ _ _ _ _ st p) as [st1|] eqn:E; [|discriminate]. cbn [bind] in H.
+    destruct (IH _ _ H) as (tr & em & Ht & Hh & Hm). unfold feed_packet in E.
     destruct (from_server_id sip sport p).
     + destruct (extract _) as [r|]; [|discriminate]. cbn [bind] in E.
-      destruct (handle_records _ _ _ _ _ _ _ _) as [c|] eqn:Ec; [|discriminate]. cbn [bind] in E. injection E as <-.
-      cbn [rs_server_pbuf rs_client_pbuf rs_core bind] in *. rewrite Ht. cbn [bind fst snd].
-      eexists. split; [reflexivity|]. rewrite handle_trace_app. rewrite <- handle_records_trace, Ec. cbn [bind]. exact Hh.
+      destruct (handle_records _ _ _ _ _ _ _) as [x|] eqn:Ec; [|discriminate]. cbn [bind] in E. injection E as <-.
+      cbn [rs_server_pbuf rs_client_pbuf rs_core rs_traffic bind] in *. rewrite Ht. cbn [bind fst snd].
+      eexists _, (snd x ++ em). split; [reflexivity|]. split.
+      * rewrite handle_trace_app. rewrite <- handle_records_trace, Ec. cbn [bind]. rewrite Hh. reflexivity.
+      * rewrite Hm, app_assoc. reflexivity.
     + destruct (extract _) as [r|]; [|discriminate]. cbn [bind] in E.
-      destruct (handle_records _ _ _ _ _ _ _ _) as [c|] eqn:Ec; [|discriminate]. cbn [bind] in E. injection E as <-.
-      cbn [rs_server_pbuf rs_client_pbuf rs_core bind] in *. rewrite Ht. cbn [bind fst snd].
-      eexists. split; [reflexivity|]. rewrite handle_trace_app. rewrite <- handle_records_trace, Ec. cbn [bind]. exact Hh.
+      destruct (handle_records _ _ _ _ _ _ _) as [x|] eqn:Ec; [|discriminate]. cbn [bind] in E. injection E as <-.
+      cbn [rs_server_pbuf rs_client_pbuf rs_core rs_traffic bind] in *. rewrite Ht. cbn [bind fst snd].
+      eexists _, (snd x ++ em). split; [reflexivity|]. split.
+      * rewrite handle_trace_app. rewrite <- handle_records_trace, Ec. cbn [bind]. rewrite Hh. reflexivity.
+      * rewrite Hm, app_assoc. reflexivity.
 Qed.
 
 Definition side (d : bool) (tr : list (bool * tls_record)) : list tls_record := map snd (filter (fun x => Bool.eqb (fst x) d) tr).
